@@ -10,6 +10,7 @@
    the 1 ms granularity of tokio's timer wheel and the OS clock are runtime. *)
 From Tramp Require Import Model.Base Model.Fee Model.Classify Model.Node Model.Provider Model.Sys.
 From Tramp Require Import Proofs.SysBasics Proofs.EntryProofs Proofs.SysEntry Proofs.SysShape Proofs.SysTheorems Proofs.SysTimers Proofs.SysReach.
+From Tramp Require Props.C03.
 From Coq Require Import ZifyBool ZifyN.
 
 (* every lifecycle sleeping in the select! has its deadline strictly ahead and at most one MPP timeout away *)
@@ -50,3 +51,16 @@ Qed.
 Theorem C11_zero_left_fails_now : forall c li base hgt tnow e sel na,
   enter_select c li base hgt tnow 0 e sel na = do_resolve e r_tramp_fail PEnd [] [] [] na.
 Proof. reflexivity. Qed.
+
+(* "and no outgoing payment is started for it": at every reachable state, under every event, a pay request is issued only
+   for a set whose held total has reached the amount to deliver plus the policy fee — so a set that never reaches the
+   required total never has an outgoing payment started (contrapositive of C03's first clause) *)
+Theorem C11_no_pay_below_total : forall c s ev en,
+  reachable c s -> entry_ (pl s) = Some en ->
+  sum_amt (listeners en) < e_deliver en + fee_base (pol c) + e_deliver en * fee_ppm (pol c) / 1000000 ->
+  forall cid b am mf md rt, ~ In (OCall cid (QPay b am mf md rt)) (snd (step c s ev)).
+Proof.
+  intros c s ev en Hr He Hlow cid b am mf md rt Hin.
+  destruct (C03.C03_pay_covered c s ev cid b am mf md rt Hr Hin) as (en' & He' & _ & Hcov & _).
+  rewrite He in He'. inversion He'; subst en'. lia.
+Qed.
